@@ -360,12 +360,19 @@ def compare_case(cmds, impl, model, mode, tol, bits=50, view="full"):
         if view == "rc" and vm is not None and vm.startswith("rc=") and vm != "rc=1":
             vi = vm = vs = None
         if vi is not None and vm is not None:
-            if vs is not None and not lines_agree(vi, vs, mode, tol):
-                out.append(("impl-vs-spec", i, il, ml, spec))
-            if not lines_agree(vi, vm, mode, tol):
+            im = lines_agree(vi, vm, mode, tol)
+            if mode == "exact" or not im:
+                # on floats the reference evaluation (forward mode) and the reverse pass may differ through
+                # cancellation / overflow of intermediates although implementation and model agree bit for
+                # bit: that is conditioning, not structure, and structure is judged on the exact channel
+                if vs is not None and not lines_agree(vi, vs, mode, tol):
+                    out.append(("impl-vs-spec", i, il, ml, spec))
+                if vs is not None and not lines_agree(vm, vs, mode, tol) and mode == "exact":
+                    out.append(("model-vs-spec", i, il, ml, spec))
+            elif vs is not None and not lines_agree(vm, vs, mode, tol):
+                out.append(("ill-conditioned", i, il, ml, spec))
+            if not im:
                 out.append(("impl-vs-model", i, il, ml, spec))
-            if vs is not None and not lines_agree(vm, vs, mode, tol):
-                out.append(("model-vs-spec", i, il, ml, spec))
         if il == "PANIC" or ml == "PANIC":
             break
     return out
@@ -614,6 +621,9 @@ def main():
         for c, findings in zip(cases, flat):
             for f in findings:
                 k = f[0]
+                if k == "ill-conditioned":
+                    stats["float_cases_where_reference_is_ill_conditioned"] = stats.get("float_cases_where_reference_is_ill_conditioned", 0) + 1
+                    continue
                 if k not in kinds_ok and k != "inexact":
                     stats["nondecisive_findings"] = stats.get("nondecisive_findings", 0) + 1
                     continue
